@@ -243,6 +243,9 @@ func runSnps(vec map[string]interface{}) map[string]interface{} {
 func runClosest(vec map[string]interface{}) map[string]interface{} {
 	qs := seqList(gList(vec, "queries"), "q", gBool(vec, "lowq"))
 	ts := seqList(gList(vec, "targets"), "t", gBool(vec, "lowt"))
+	if gBool(vec, "dupq") && len(qs) >= 2 {
+		qs[1].name = qs[0].name // the same sample submitted twice (list forms only: one row per query, in file order)
+	}
 	for _, k := range intList(gList(vec, "lowts")) {
 		// some targets in lower case, the others not (alignments merged from two tools)
 		if k >= 0 && k < len(ts) {
@@ -362,6 +365,18 @@ func runClosest(vec map[string]interface{}) map[string]interface{} {
 				row["bad"] = l
 			}
 			rows = append(rows, row)
+		}
+	}
+	if gBool(vec, "dupq") && len(qs) >= 2 {
+		// two queries carry one name: the second row under that name is the second query's (rows follow the query file)
+		seen := 0
+		for _, x := range rows {
+			if m := x.(map[string]interface{}); m["qi"] == 1 {
+				seen++
+				if seen == 2 {
+					m["qi"] = 2
+				}
+			}
 		}
 	}
 	obs["rows"] = rows
